@@ -444,6 +444,13 @@ struct Spec
                                     // lost >= 2: generic loss check reports C03
                                 }
                             }
+                            if (T.ttl_cache && full && ob.size != cap)
+                            {
+                                // whether the key overwrote its own expired entry in place or took a new slot
+                                // after exactly one removal, a full cache stays full
+                                snprintf(buf, sizeof buf, "size() is %ld, not capacity() %ld, after an insert into a full cache", ob.size, cap);
+                                V(P(3), buf);
+                            }
                             write_new(k, w, dl);
                             after_write_expect(k);
                             losetag[k] = P(9) | P(5);
@@ -740,9 +747,14 @@ struct Spec
             }
             else if (T.ttl_map && is_api && g.ttl_ms >= 1)
             {
-                if (ob.size != nscan)
+                // "live" is the model's notion (written, not undone, deadline in the future) - not "found":
+                // an expired entry that is still served (C04's business) is not a live key
+                int nlive_model = 0;
+                for (int k = 1; k <= U; k++)
+                    nlive_model += (m.e[k].present && m.now < m.e[k].deadline);
+                if (ob.size != nlive_model)
                 {
-                    snprintf(buf, sizeof buf, "size() is %ld right after the call but %d keys are live", ob.size, nscan);
+                    snprintf(buf, sizeof buf, "size() is %ld right after the call but %d keys are live", ob.size, nlive_model);
                     V(P(2) | P(17), buf);
                 }
             }
